@@ -910,6 +910,20 @@ impl Check for C01 {
                 idx += 1;
             }
         }
+        // strings of thousands of adjacent escapes / multi-byte characters, as value, skipped
+        // member, member name, nested
+        {
+            let counts: &[i64] = if g.tier == Tier::Quick { &[3_000, 40_000, 400_000] } else { &[1_000, 3_000, 10_000, 40_000, 150_000, 400_000, 1_500_000] };
+            let mut idx = 0u64;
+            for kind in 0..10i64 {
+                for (ci, cnt) in counts.iter().enumerate() {
+                    idx += 1;
+                    if g.mine(6000 + idx) && (g.scale >= 0.5 || *cnt <= 40_000) {
+                        emit(Case::with("long-run", vec![], &[kind, *cnt, kind + ci as i64]));
+                    }
+                }
+            }
+        }
         // ONE deserializer / stream polled again and again after errors (a skip-the-bad-record
         // loop): state that leaks per error (depth budgets, marks, scratch) shows only there
         for kind in 0..8i64 {
@@ -985,6 +999,23 @@ impl Check for C01 {
                 ctx.class(if c.p(1) > 128 { "input:deep>128" } else { "input:deep<=128" });
                 run_input(ctx, &b, true);
                 ctx.sample("deep");
+            }
+            "long-run" => {
+                // a string made of thousands of ADJACENT tokens of one kind (escapes of every
+                // sort, multi-byte characters, backslash pairs): anything that handles "the next
+                // one" by calling itself needs stack in proportion to the input
+                let (kind, count, place) = (c.p(0) as usize, c.p(1) as usize, c.p(2));
+                let unit = ["\\n", "\\\"", "\\\\", "\\u0000", "\\ud83d\\ude00", "\\/", "é", "😀", "\\u00e9x", "\\t\\r"][kind % 10];
+                let run = unit.repeat(count);
+                let text = match place % 4 {
+                    0 => format!("\"{}\"", run),
+                    1 => format!("{{\"skip\":[\"{}\",1],\"a\":[7,8]}}", run),
+                    2 => format!("{{\"{}\":1,\"a\":2}}", run),
+                    _ => format!("[[\"{}\"],{{\"a\":\"{}\"}}]", run, &run[..run.len().min(unit.len() * 100)]),
+                };
+                ctx.class("input:long-run-of-escapes");
+                run_input(ctx, text.as_bytes(), true);
+                ctx.sample("long-run");
             }
             "reuse" => {
                 let (kind, calls) = (c.p(0), c.p(1) as usize);
@@ -1093,7 +1124,7 @@ impl Check for C01 {
         if b.starts_with("miri") {
             vec!["miri:nodom-driver"]
         } else if b == "native-rel" {
-            vec!["input:deep>128", "input:generated", "input:non-utf8", "outcome:ok", "outcome:err", "ledger:checked", "input:>=390KB", "input:number-literal", "input:number>700-digits"]
+            vec!["input:deep>128", "input:generated", "input:non-utf8", "outcome:ok", "outcome:err", "ledger:checked", "input:>=390KB", "input:number-literal", "input:number>700-digits", "input:long-run-of-escapes"]
         } else {
             vec!["input:generated", "outcome:ok", "outcome:err"]
         }
